@@ -31,6 +31,15 @@ CHECKS = {
  "C08": ("exploration", EXH,
          "Every metadata map of the stated alphabet (keys a, a-bin, x-y, bin, -bin, abin, grpc-timeout and the six reserved names; binary values of every length mod 3 over {00,3D,FB,FF}; ASCII value menu; repeated keys; permuted insertion orders) is carried as request metadata, response headers, trailers-only status and trailers status through generated client -> generated server in-process (raw header blocks and the peer's typed view judged with hand-written base64/percent decoders) and once through the real Channel/h2/Server stack; padded and unpadded input on seven receiving routes; every typed accessor/iterator under five key spellings; header+trailer merging against a non-tonic peer.",
          "exhaustive over the listed alphabets only; forgery is judged by value with menus tonic never sends itself; the transport pass judges the peer's view only.", "3/C08"),
+ "C09": ("exploration", EXH,
+         "Request::set_timeout over durations around every unit boundary and every power of ten up to the largest representable: the emitted grpc-timeout must match the grammar, denote <= requested and lose < 1 unit; the private parser (hook H1) is run on every digit string of 1..4 digits x 6 units, and on the 5..8 digit strings by blocks (thorough: all 666 666 660 conformant values), plus every string <= 3/4 chars over a malformed alphabet and a malformed menu: conformant => exactly the denoted Duration, malformed => ignored.",
+         "Enforcement (shortest deadline wins, in virtual time) is added by the VNet section when present in the evidence; parser observed through the add-only hook.", "3/C09"),
+ "C10": ("exploration", EXH,
+         "Every non-empty subset of five generated fixture services whose names are prefixes / case variants / package-less variants of one another, registered in several orders through Routes/RoutesBuilder with plain, intercepted and grpc-web wrapping, is sent every path of a mutation menu (exact, query, trailing slash, extra/empty/dot segments, one char added/removed, case flips, percent-encoded letters) and compared with a reference router: the handler (S, M) runs iff the path is exactly /S/M, otherwise no handler runs and grpc-status is 12.",
+         "Request targets the http crate cannot represent are outside the alphabet; the fixture servers are generated by the real tonic_build at harness build time.", "3/C10"),
+ "C11": ("translation_validation", "exhaustive enumeration of a bounded service-definition grammar through the real generator; generated code parsed with syn and compared with a reference computed from the descriptor; byte comparison of committed generated files with a regeneration",
+         "Every service definition of a bounded grammar (package absent/simple/nested x service names x 1..3 methods over CamelCase/snake/digit/Rust-keyword identifiers x 4 streaming kinds x emit_package x use_arc_self x default stubs x build_transport x client/server only) goes through the real tonic_build via both front ends (manual and .proto -> protox -> compile_fds); client path literal, GrpcMethod strings, Grpc call, shape and types, server match arm, Grpc call, trait and SERVICE_NAME are extracted with syn and compared with a descriptor-only reference and with each other; the committed health/reflection/types generated files are validated the same way and byte-compared with what the repo's codegen crate regenerates from the current tree.",
+         "Generated code is validated structurally, not executed; options outside the grammar are not covered; the regeneration keeps a persistent cargo target under /verif/target/regen (source copy refreshed from /repo every run).", "3/C11"),
  "C12": ("exploration", EXH,
          "InterceptedService over 6720 requests (methods x versions x URIs x header maps incl. repeated/reserved/padded-binary/obs-text x extension x bodies incl. trailers) x 20 accepting actions and 142/267 rejecting statuses, judged by a recorder inner service and a reference multimap model; the reject path requires zero inner calls, 200, application/grpc, empty body and independently decoded status headers equal to Status::add_header; generated with_interceptor client and server are exercised too.",
          "Headers compared per key in order (cross-key order unconstrained); interceptors are closures over the public Request<()> API.", "3/C12"),
